@@ -1,6 +1,7 @@
 """C04: parsing and matching entry points are total: errors, never panics or hangs.
 Totality.tla is the call monitor (idle -> called -> returned value | error; no other outcome is a behaviour).  TLC TotalityMC
-enumerates EVERY word over the 34-symbol class alphabet up to MaxLen; the harness feeds each word (and seeded one-mistake-away
+enumerates EVERY word over the 34-symbol class alphabet up to MaxLen and EVERY text of up to MaxLines lines built from ten
+line templates x indentation depths (grammar-derived inputs of the schema / graph text formats); the harness feeds each (and seeded one-mistake-away
 mutations of valid inputs: deletions, swaps, invalid UTF-8, NUL, very long tokens, deep nesting, long lists; and a deep phase
 with inputs nested / chained millions of levels) to every entry point of every system, each call under recover and a watchdog,
 in child processes whose death is attributed through a progress file; TLC TotalityTrace validates every logged outcome."""
@@ -11,15 +12,15 @@ import vlib
 PAR = 16
 
 
-def run_phase(vh, wdir, tag, words, seed, nmut, deep=False, timeout=3000):
-    """One harness child.  Returns (records, death) where death is None or an observation record for the call in flight."""
-    wf, of, pf = [os.path.join(wdir, "%s.%s" % (tag, x)) for x in ("words", "obs", "prog")]
-    vlib.write_ndjson(wf, words)
+def run_phase(vh, wdir, tag, wordsfile, shard, seed, nmut, deep=False, timeout=3000):
+    """One harness child (inputs: the lines of wordsfile belonging to shard "k/n").  Returns (records, death) where death is
+    None or an observation record for the call in flight when the process died."""
+    of, pf = [os.path.join(wdir, "%s.%s" % (tag, x)) for x in ("obs", "prog")]
     if os.path.exists(of):
         os.remove(of)
-    args = [vh, "total", wf, of, str(seed), str(nmut), pf] + (["deep"] if deep else [])
+    args = [vh, "total", wordsfile, of, str(seed), str(nmut), pf] + (["deep"] if deep else [])
     try:
-        p = subprocess.run(args, stdout=subprocess.PIPE, stderr=subprocess.PIPE, text=True, errors="replace", timeout=timeout, env=vlib.env_with(None))
+        p = subprocess.run(args, stdout=subprocess.PIPE, stderr=subprocess.PIPE, text=True, errors="replace", timeout=timeout, env=vlib.env_with({"VERIF_SHARD": shard}))
     except subprocess.TimeoutExpired:
         raise vlib.Trouble("harness phase %s exceeded %ss (machinery limit, no verdict)" % (tag, timeout))
     if p.returncode == 0:
@@ -30,7 +31,7 @@ def run_phase(vh, wdir, tag, words, seed, nmut, deep=False, timeout=3000):
         raise vlib.Trouble("harness phase %s exited %s without a Go fatal error\n%s" % (tag, p.returncode, err[-3000:]))
     entry, sys_, inp = (open(pf).read().rstrip("\n").split("|", 2) + ["", "", ""])[:3]
     frames = [l.split("(")[0] for l in err.splitlines() if l.startswith("deps.dev/")][:3]
-    return [], {"entry": entry, "sys": sys_, "calls": 1, "slow": 0, "abandoned": 0, "maxms": 0, "maxlen": len(inp),
+    return [], {"entry": entry, "sys": sys_, "calls": 1, "slow": 0, "abandoned": 0, "skipped": 0, "maxms": 0, "maxlen": len(inp),
                 "outcomes": [{"outcome": "process died: %s (in %s)" % (fatal[0][:100], ", ".join(frames)), "count": 1, "witness": inp}]}
 
 
@@ -42,7 +43,7 @@ def merge(all_recs):
         if o is None:
             m[k] = {**r, "outcomes": [dict(x) for x in r["outcomes"]]}
             continue
-        for f in ("calls", "slow", "abandoned"):
+        for f in ("calls", "slow", "abandoned", "skipped"):
             o[f] += r.get(f, 0)
         o["maxms"] = max(o["maxms"], r["maxms"])
         o["maxlen"] = max(o["maxlen"], r["maxlen"])
@@ -68,12 +69,11 @@ def run(ctx):
         w = c["witness"]
         if w.endswith("bytes)") and "...(" in w:
             raise vlib.Trouble("the witness of this case is abbreviated (long generated input); re-run the check instead")
-        r, d = run_phase(vh, wdir, "replay", [], 0, 0)  # placeholder so the files exist
         p = subprocess.run([vh, "total1", os.path.join(wdir, "replay.obs"), w], stdout=subprocess.PIPE, stderr=subprocess.PIPE, text=True, errors="replace", env=vlib.env_with(None))
         if p.returncode == 0:
             recs = [json.loads(l) for l in open(os.path.join(wdir, "replay.obs"))]
         else:
-            recs = [{"entry": c["entry"], "sys": c["sys"], "calls": 1, "slow": 0, "abandoned": 0, "maxms": 0, "maxlen": 0,
+            recs = [{"entry": c["entry"], "sys": c["sys"], "calls": 1, "slow": 0, "abandoned": 0, "skipped": 0, "maxms": 0, "maxlen": 0,
                      "outcomes": [{"outcome": "process died: " + (p.stderr.splitlines() or ["?"])[0][:100], "count": 1, "witness": w}]}]
         recs = [r for r in recs if r["entry"] == c["entry"] and r["sys"] == c["sys"]]
         nwords = nmut = 0
@@ -82,16 +82,17 @@ def run(ctx):
         r = vlib.tlc("TotalityMC", os.path.join(vlib.SPEC, "TotalityMC_%s.cfg" % ctx.tier), wdir, env={"VERIF_OUT": outf}, workers=8, timeout=2400, heap="8g")
         vlib.tlc_must_pass(r, "TotalityMC")
         states, gen = r.distinct, r.generated
-        words = vlib.read_ndjson(outf)
-        words.sort(key=lambda x: (len(x["w"]), x["w"]))
-        nwords = len(words)
+        with open(outf) as f:
+            nwords = sum(1 for _ in f)
+        emptyf = os.path.join(wdir, "empty.raw")
+        open(emptyf, "w").close()
         nmut = 4000 if ctx.tier == "quick" else 320000
         jobs = []
         with cf.ThreadPoolExecutor(max_workers=PAR + 1) as ex:
             for k in range(PAR):
-                jobs.append(ex.submit(run_phase, vh, wdir, "w%02d" % k, words[k::PAR], 0, 0))
-                jobs.append(ex.submit(run_phase, vh, wdir, "m%02d" % k, [], ctx.seed * 1000 + k, nmut // PAR))
-            jobs.append(ex.submit(run_phase, vh, wdir, "deep", [], 0, 0, True))
+                jobs.append(ex.submit(run_phase, vh, wdir, "w%02d" % k, outf, "%d/%d" % (k, PAR), 0, 0))
+                jobs.append(ex.submit(run_phase, vh, wdir, "m%02d" % k, emptyf, "0/1", ctx.seed * 1000 + k, nmut // PAR))
+            jobs.append(ex.submit(run_phase, vh, wdir, "deep", emptyf, "0/1", 0, 0, True))
             for j in jobs:
                 rr, d = j.result()
                 recs += rr
@@ -119,11 +120,11 @@ def run(ctx):
     slowest = sorted(obs, key=lambda o: -o["maxms"])[:3]
     cov = {"states": states + s2, "transitions": gen + g2, "traces_validated_against_impl": len(obs), "evaluations": calls,
            "distinct_nontrivial": nwords + nmut,
-           "rule": "every word over the 34-symbol alphabet up to the tier's MaxLen (%d words, TLC-enumerated) + %d seeded mutations of valid inputs + the deep phase, each fed to %d (entry point, system) pairs; "
+           "rule": "every word over the 34-symbol alphabet up to the tier's MaxLen and every text of up to MaxLines lines (10 line templates x depths) of the two line-oriented formats (%d inputs, TLC-enumerated) + %d seeded mutations of valid inputs + the deep phase, each fed to %d (entry point, system) pairs; "
                    "non-trivial = distinct input string; an input counts once however many entry points see it" % (nwords, nmut, len(obs)),
            "samples": [{"entry": o["entry"], "sys": o["sys"], "calls": o["calls"], "outcomes": {x["outcome"]: x["count"] for x in o["outcomes"]}} for o in obs[:2]],
            "slowest_calls_ms": [{"entry": o["entry"], "sys": o["sys"], "maxms": o["maxms"], "maxlen": o["maxlen"]} for o in slowest],
-           "calls_past_soft_limit": sum(o["slow"] for o in obs), "deep_phase_abandoned_no_verdict": sum(o["abandoned"] for o in obs),
+           "calls_past_soft_limit": sum(o["slow"] for o in obs), "deep_phase_abandoned_no_verdict": sum(o["abandoned"] for o in obs), "calls_skipped_after_a_hang": sum(o.get("skipped", 0) for o in obs),
            "known_findings_hit": {k: v[0] for k, v in verdict.hits.items()}, "exhaustive": False}
     vlib.write_evidence(pid, ctx.tier, ctx.seed, "exploration", cov, time.time() - t0, violations=len(verdict.violations),
                         assumptions=["TLC 1.8.0", "a call is judged hung only if it has not returned after 90 s on an input of at most ~40 KB (slowest returning call in evidence); the deep phase (inputs of up to 16 MB) judges only process death",
